@@ -42,7 +42,7 @@ QJsonObject generate()
     c["compact"] = chance(60);
     // how the formatter is obtained: constructed directly, through the fluent API (SimplePipeline::formatToJson) after another
     // pipeline of the same process asked for the OTHER mode, or the documented shared instance (indented)
-    c["via"] = chance(60) ? "ctor" : (chance(75) ? "pipeline" : "instance");
+    c["via"] = chance(35) ? "ctor" : chance(40) ? "reused" : (chance(75) ? "pipeline" : "instance");
     // process-wide state (a shared formatter instance, a cached flag) is frozen by the first use in a process: a few
     // cases therefore run "other mode first, then this mode" in a freshly forked child, where nothing was used before
     c["fresh"] = chance(2);
@@ -122,6 +122,10 @@ std::string run(const QJsonObject &c)
             warmup.formatToJson(true);
         }
         out = JsonFormatter::instance()->format(lm);
+    } else if (via == "reused") {
+        // one formatter object per mode lives for the whole run and formats message after message with different attribute sets
+        static JsonFormatter reusedCompact(true), reusedIndented(false);
+        out = (compact ? reusedCompact : reusedIndented).format(lm);
     } else {
         JsonFormatter f(compact);
         out = f.format(lm);
@@ -188,6 +192,15 @@ std::string run(const QJsonObject &c)
         std::string diff = sameValue(*m, av.toArray()[1].toObject(), "attribute " + showU16(name).toStdString());
         if (!diff.empty()) return diff;
     }
+
+    // ---- nothing but the message's own fields: a record carries no key of an earlier message ----
+    for (auto &kv : v.obj) {
+        bool known = false;
+        for (auto b : kBuiltins) if (kv.first == u16(QString::fromLatin1(b))) known = true;
+        for (auto av : attrs) if (kv.first == u16(strFromJson(av.toArray()[0]))) known = true;
+        if (!known) return "the object holds a key " + showU16(kv.first).toStdString() + " that is neither a built-in field nor an attribute of this message";
+    }
+    cls("via_reused_formatter_object", via == "reused");
 
     const unsigned used = unsigned(c["usedClasses"].toInt());
     const bool hard = used & ((1u << SC_CONTROL) | (1u << SC_JSONSYNTAX) | (1u << SC_ASTRAL));
